@@ -36,7 +36,7 @@ def _hook(run: Run):
         if isinstance(f, tuple) and f and f[0] == "method" and isinstance(f[1], Sym) and (f[1].cls is None or f[1].cls.find_method(f[2]) is None):
             obj, name = f[1], f[2]
             cands = it.prj.methods_named(name)
-            if obj.name.startswith("ext:") or obj.name.startswith("ext.") or not cands or obj.cls is not None:
+            if obj.name.startswith("ext:") or obj.name.startswith("ext.") or not cands or obj.cls is not None or getattr(obj, "open", False):
                 run.effects.append((f"{obj.name}.{name}", list(args), dict(kwargs)))
                 r = Sym(f"ext.{obj.name}.{name}()", _open=True, args=list(args))
                 return r
